@@ -29,6 +29,7 @@ from . import ty_str
 from .cfg import CFG
 from .origin import Origins, subst, walk, mk_bin, enum_paths, TooManyPaths, show, _pe, const_tree
 from .canon import Canon, is_closure, is_fnitem, fnitem_path
+from .pat import strip_refs
 
 OPT = "core::option::Option"
 RES = "core::result::Result"
@@ -130,8 +131,10 @@ class _State:
 class Paths:
     """Path summaries of the functions of a Program."""
 
-    def __init__(self, prog, inline=None, depth=4, limit=1500, path_limit=400, loops="refuse", local_effects=False):
+    def __init__(self, prog, inline=None, depth=4, limit=1500, path_limit=400, loops="refuse", local_effects=False, havoc=False):
         self.prog = prog
+        self.havoc = havoc   # loops="once": a local assigned in a loop body reads as ('loopvar', ..) when its value would
+        #                      come from before the loop — the summaries then describe an arbitrary iteration, not the first
         self.canon = Canon(prog)
         self.canon.lam_args = False   # closures stay aggregates (with their captures): rules summarise them path by path
         self.inline = inline or (lambda g: prog.is_new(g))
@@ -213,9 +216,48 @@ class Paths:
                     raise Unsupported("too many summaries in %s" % fn.path)
         return out
 
+    def _loop_assigned(self, fn):
+        """{loop head: locals directly assigned in the loop body, ('body', head): the body's blocks}"""
+        memo = self.__dict__.setdefault("_loop_assigned_memo", {})
+        if fn.id in memo:
+            return memo[fn.id]
+        cfg = CFG(fn.body)
+        out = {}
+        blocks = fn.body["blocks"]
+        for h in cfg.loop_heads():
+            fwd, todo = set(), [h]
+            while todo:
+                u = todo.pop()
+                for v in cfg.succ[u]:
+                    if v not in fwd:
+                        fwd.add(v)
+                        todo.append(v)
+            bwd, todo = set(), [h]
+            while todo:
+                u = todo.pop()
+                for v in cfg.pred[u]:
+                    if v not in bwd:
+                        bwd.add(v)
+                        todo.append(v)
+            body = (fwd & bwd) | {h}
+            ls = set()
+            for b in body:
+                for st in blocks[b]["s"]:
+                    if st["k"] == "assign":
+                        ls.add(st["place"]["l"])
+                t = blocks[b]["t"]
+                if t and t["k"] == "call" and t.get("dest"):
+                    ls.add(t["dest"]["l"])
+            out[h] = ls
+            out[("body", h)] = body
+        memo[fn.id] = out
+        return out
+
     def _events(self, fn, path):
         po = Origins(fn, path=path)
         po.inline_new = False
+        if self.havoc:
+            po.havoc = self._loop_assigned(fn)
         blocks = fn.body["blocks"]
         ev = []
         single = self._single_assign(fn)
@@ -281,6 +323,23 @@ class Paths:
                 ev.append(("cond", d, lit, self._discr_ty(fn, path, k, t), dty == "bool"))
         last = len(path) - 1
         tl = blocks[path[last]]["t"]
+        hv = getattr(po, "havoc", None)
+        if hv and not (tl and tl["k"] == "return"):
+            # a path that ends at a back edge: what this iteration leaves in the named locals the loop assigns
+            cfg = CFG(fn.body)
+            for h in cfg.succ[path[last]]:
+                if h in hv and h in path:
+                    for l in sorted(hv[h]):
+                        nm = fn.body["locals"][l].get("name")
+                        if not nm or l <= fn.body["argc"]:
+                            continue
+                        lvv = ("loopvar", l, nm)
+                        try:
+                            v = res(po._local(l, (), last, po.end(last)), last, po.end(last))
+                        except Exception:
+                            continue
+                        if v != lvv:
+                            ev.append(("write", lvv, v))
         ev.append(("ret", res(po.return_origin(), last, po.end(last)) if tl and tl["k"] == "return" else UNIT))
         return ev
 
@@ -652,6 +711,14 @@ class Paths:
                 return v
             if n[0] == "call" and len(n) == 5 and isinstance(n[4], str) and n[4].startswith("@"):
                 return n[:4] + (n[4] + inst,)
+            if n[0] == "call" and n[1].split("::")[-1] in ("call", "call_mut", "call_once") and "::function::Fn" in n[1] and len(n[3]) == 2:
+                # a callable parameter of the callee that this invocation binds to a known closure / fn item: a pure
+                # single-path callable is replaced by its result (`overlaps_along(a, b, |p| p.x)`)
+                c, tup = strip_refs(n[3][0]), strip_refs(n[3][1])
+                if (is_closure(c) or is_fnitem(c)) and tup[0] == "agg" and tup[1] == "tuple":
+                    cases = self._apply_callable(c, list(tup[2]), 1)
+                    if cases is not None and len(cases) == 1 and not cases[0][0] and not cases[0][1]:
+                        return cases[0][2]
             return None
         f = lambda t: _simplify(self.canon.tree(_norm_calls(subst(t, r))), self._ctor_map)
         # the target of a write is a place: what the callee's parameter stands for there is the caller's place, not
